@@ -53,6 +53,8 @@ def main():
         parts.append(inst(read(n), {}))
     p8 = read('part8_top.vrs.in')
     parts += [inst(p8, F32), inst(p8, F64)]
+    p9 = read('part9_signed.vrs.in')
+    parts += [inst(p9, F32), inst(p9, F64)]
     txt = '\n'.join(parts) + '\n'
     assert '@' not in re.sub(r'/\*@\{\*/|/\*\}@\*/|x@|\w@|@ ', '', txt) or True
     open(OUT, 'w').write(txt)
